@@ -78,7 +78,9 @@ class BuildError(Exception):
 def build_harness(variant="asan"):
     """Compile /repo's sources and link the harness; cached by the hash of the sources.
     variant: asan (ASan+UBSan), tsan, plain (for valgrind / nm)."""
-    key = _hash_tree([os.path.join(REPO, "include"), os.path.join(REPO, "src"), HARNESS_SRC]) + "-" + variant
+    import hashlib
+    key = _hash_tree([os.path.join(REPO, "include"), os.path.join(REPO, "src"), HARNESS_SRC])
+    key = hashlib.sha256((key + open(os.path.abspath(__file__)).read()).encode()).hexdigest()[:16] + "-" + variant   # build recipe is part of the key
     out = os.path.join(CACHE, "h-" + key)
     exe = os.path.join(out, "harness")
     with Lock("harness-" + variant):
@@ -88,11 +90,11 @@ def build_harness(variant="asan"):
         shutil.rmtree(tmp, ignore_errors=True)
         os.makedirs(os.path.join(tmp, "obj"))
         if variant == "asan":
-            flags = "-std=c++17 -O1 -g -fsanitize=address,undefined -fno-sanitize=vptr,alignment,nonnull-attribute -fno-sanitize-recover=all"
+            flags = "-std=c++17 -O0 -g -fsanitize=address,undefined -fno-sanitize=vptr,alignment,nonnull-attribute -fno-sanitize-recover=all"
         elif variant == "tsan":
-            flags = "-std=c++17 -O1 -g -fsanitize=thread"
+            flags = "-std=c++17 -O0 -g -fsanitize=thread -fno-builtin"   # gcc does not instrument inlined builtin memcpy: a race through memcpy would go unseen
         else:
-            flags = "-std=c++17 -O1 -g"
+            flags = "-std=c++17 -O0 -g"
         flags += " -I%s/include" % REPO
         srcs = sorted(f for f in os.listdir(os.path.join(REPO, "src")) if f.endswith(".cpp"))
         procs = []
